@@ -29,6 +29,8 @@ from . import common
 from .common import enc, dec
 from . import jinja_grammar as G
 from . import c19_lexer as FL
+from . import c19_autoindent as AI
+from . import c19_glue as GL
 
 BREAKS = "\n\r\x0b\x0c\x1c\x1d\x1e\x85\u2028\u2029"
 _LINE = re.compile("([^" + BREAKS + "]*)(\r\n|[" + BREAKS + "]|$)")
@@ -333,7 +335,7 @@ def run(ctx: common.Ctx):
         "parser, compiler and runtime of the bundled engine are covered by the differential tie only (vendored third-party code, not modelled)",
         "constructs on which upstream 2.x and 3.x themselves differ are outside the common language: " + "; ".join(G.EXCLUDED),
     ]
-    corpus = {"lexer": [], "lineprefix": [], "markers": [], "templates": []}
+    corpus = {"lexer": [], "lineprefix": [], "markers": [], "templates": [], "autoindent": []}
     cdir = common.VERIF / "corpus" / "C19"
     if cdir.exists():
         for f in sorted(cdir.glob("*.json")):
@@ -385,7 +387,7 @@ def run(ctx: common.Ctx):
         ctx.extra["isspace_codepoints_compared"] = len(cps)
 
     # ---- tie 2 + search (i) at the lexer level ----------------------------------------------------------
-    maxlen = 5 if quick else 6
+    maxlen = 4 if quick else 6      # quick: the whole-lexer tie (2a) covers the same root rule on the same alphabet
     lex_cases = [normalise_source(s) for s in corpus["lexer"]]
     ncorp = len(lex_cases)
     for L in range(0, maxlen + 1):
@@ -507,8 +509,13 @@ def run(ctx: common.Ctx):
     run_markers(ctx, drv, bj, sj, corpus["markers"])
     ctx.extra["stream_seconds"]["markers"] = round(_t.time() - _t0, 1); _t0 = _t.time()
 
+    # ---- tie 4b + search (ii), nested: Parser.subparse autoindent wrapping composed with lineprefix ------------------------
+    AI.run_autoindent(ctx, drv, bj, "O" if impl_variant.get(False) == "before-fix" else "B", fail, ref_prefix, split_keep, corpus["autoindent"])
+    ctx.extra["stream_seconds"]["autoindent"] = round(_t.time() - _t0, 1); _t0 = _t.time()
+
     # ---- tie 5 + search (iii): assert / ifuses in the real CodeGenEnvironment -------------------------------
     run_extensions(ctx, drv, bj, sj, cge, qtpl)
+    GL.run_glue(ctx, drv, bj, sj, fail)
     ctx.extra["stream_seconds"]["extensions"] = round(_t.time() - _t0, 1); _t0 = _t.time()
 
     # ---- tie 6 + search (i): differential ------------------------------------------------------------------
@@ -1271,7 +1278,7 @@ def replay(ctx, path):
     rp = r.get("replay", {})
     bj, sj = modules()
     stream = rp.get("stream")
-    if stream in ("differential", "marker"):
+    if stream in ("differential", "marker", "autoindent"):
         context = rp.get("context_json")
         if rp.get("origin") == "snapshot-bug-probe":
             be_, se_ = make_env(bj, {}), make_env(sj, {})
@@ -1286,7 +1293,7 @@ def replay(ctx, path):
         if context is None:
             context = {k: eval(v, {"Markup": bj.Markup}) for k, v in rp.get("context", {}).items()}  # noqa: S307 - our own repr()s
         b = render(bj, rp["templates"], rp["main"], context, rp.get("trim_blocks", False), rp.get("lstrip_blocks", False), opts=rp.get("environment_options"))
-        if stream == "marker":
+        if stream in ("marker", "autoindent"):
             print(json.dumps({"bundled": b, "expected": rp["expected"]}))
             return 0 if list(b) == list(rp["expected"]) else 1
         s = render(sj, rp["templates"], rp["main"], context, rp.get("trim_blocks", False), rp.get("lstrip_blocks", False), opts=rp.get("environment_options"))
